@@ -101,10 +101,10 @@ def impl_authorised(runners, t, im, mm) -> list[bool]:
 
 
 # ---------------------------------------------------------------------------------------- generators
-def configs(ctx: Ctx, wide: bool):
+def configs(ctx: Ctx, wide: bool, extra_random: int = 0):
     """(n, interval_minutes, margin_minutes, margin_class)"""
     ns = list(range(1, 17 if wide else 13))
-    ims = [5.0, 6.0, 7.0, 0.1, 3.3] + ([1.0, 0.5, 10.0, 15.0, 60.0, 1.0 / 3.0, 1440.0, 0.01, 2.5, 11.0] if wide else [])
+    ims = [5.0, 6.0, 7.0, 0.1, 3.3] + ([1.0, 10.0, 60.0, 1.0 / 3.0, 1440.0] if wide else [])
     out = []
     for n in ns:
         for im in ims:
@@ -117,7 +117,7 @@ def configs(ctx: Ctx, wide: bool):
             for cls, mm in margins:
                 out.append((n, im, mm, cls))
     rng = ctx.rng
-    for _ in range(400 if wide else 40):
+    for _ in range((200 if wide else 40) + extra_random):
         n = rng.randint(1, 16 if wide else 12)
         im = rng.choice([rng.uniform(0.05, 30.0), float(rng.randint(1, 120)), rng.uniform(0.05, 30.0) * 7])
         mm = rng.choice([0.0, rng.uniform(0, im / n), rng.uniform(0, 2 * im / n), im / n])
@@ -132,19 +132,19 @@ def instants(ctx: Ctx, n, im, mm, slots, wide: bool):
     bounds = sorted({0.0, I} | {b for s, e in slots for b in (s, e)})
     ts: list[float] = []
     big = [int(1_700_000_000 // I), int((2 ** 31 - 1) // I) - 1]
-    for k in ([0, 1, 3, 7, 1000] if wide else [0]):
+    for k in ([0, 1000] if wide else [0]):
         for b in bounds:
             t = k * I + b
             ts += [t, math.nextafter(t, math.inf), math.nextafter(t, -math.inf)]
-    if not wide:
-        for k in (1, 3):
-            ts += [k * I + b for b in bounds]
-    pick = bounds if (wide or len(bounds) <= 6) else rng.sample(bounds, 6)
-    for k in big:
-        for b in pick:
+    for k in ((1, 3, 7) if wide else (1, 3)):
+        ts += [k * I + b for b in bounds]
+    lim = 8 if wide else 6
+    pick = bounds if len(bounds) <= lim else rng.sample(bounds, lim)
+    for j, k in enumerate(big):
+        for b in (bounds if (wide and j == 1) else pick):
             t = k * I + b
-            ts += [t, math.nextafter(t, math.inf), math.nextafter(t, -math.inf)] if wide else [t]
-    grid = 96 if wide else 12
+            ts += [t, math.nextafter(t, math.inf), math.nextafter(t, -math.inf)] if (wide and j == 0) else [t]
+    grid = 16 if wide else 12
     for k in (0, 2, big[0]):
         for j in range(grid):
             ts.append(k * I + (j + rng.random()) * I / grid)
@@ -225,8 +225,8 @@ def oracle_config(ctx: Ctx, n, im, mm, cls, slots, runners, stats):
 
 
 # ---------------------------------------------------------------------------------------- pure correspondence
-def run_pure(ctx: Ctx, wide: bool):
-    cfgs = configs(ctx, wide)
+def run_pure(ctx: Ctx, wide: bool, extra_random: int = 0):
+    cfgs = configs(ctx, wide, extra_random)
     stats = {"margin_fits": 0, "margin_does_not_fit": 0, "margin_at_rounding_boundary": 0, "window_probes": 0,
              "window_below_float_spacing": 0}
     cases = []
@@ -390,10 +390,11 @@ def main(ctx: Ctx) -> int:
     if info.get("shape_changed"):
         ctx.log("calculate_runner_position changed shape - relying on the correspondence for the position lookup")
     pr = ctx.prove("Props/C12.v")
-    wide = ctx.thorough or (not pr.ok) or bool(info.get("degraded"))
+    # a broken proof / degraded translator widens the search for a concrete failing input
+    extra = 300 if ((not pr.ok) or bool(info.get("degraded"))) else 0
     scratch = world.scratch_dir()
     try:
-        run_pure(ctx, wide)
+        run_pure(ctx, ctx.thorough, extra)
         run_orchestrators(ctx, scratch, ctx.thorough)
     finally:
         world.rm_scratch(scratch)
